@@ -35,6 +35,10 @@ fn main() {
     ];
     let only: Option<String> = arg_value(&args, "--copies");
     let mut out = Out::create(&outp);
+    // a call that does not return within VERIF_HANG_SECS (default 20 s; inputs are a few kB) is recorded as kind "hang";
+    // a copy that hung once is not called again (every later record of it is "hang" too)
+    let limit: u64 = std::env::var("VERIF_HANG_SECS").ok().and_then(|s| s.parse().ok()).unwrap_or(20);
+    let mut hung: std::collections::HashSet<String> = std::collections::HashSet::new();
     for r in read_records(&inp) {
         let bytes: Vec<u8> = r["bytes"].as_array().unwrap().iter().map(|x| x.as_u64().unwrap() as u8).collect();
         let mut outs: Vec<Value> = Vec::new();
@@ -44,13 +48,29 @@ fn main() {
                     continue;
                 }
             }
-            let r64 = catch_unwind(AssertUnwindSafe(|| e64(&bytes)));
+            let (e32, e64) = (*e32, *e64);
+            let done = if hung.contains(*name) {
+                None
+            } else {
+                let b2 = bytes.clone();
+                call_with_limit(limit, move || {
+                    (catch_unwind(AssertUnwindSafe(|| e64(&b2))), catch_unwind(AssertUnwindSafe(|| e32(&b2))))
+                })
+            };
+            let (r64, r32) = match done {
+                Some(x) => x,
+                None => {
+                    hung.insert(name.to_string());
+                    outs.push(json!({"copy": name, "specials": specials, "fmt": "f64", "kind": "hang", "bits": [], "rest": 0}));
+                    outs.push(json!({"copy": name, "specials": specials, "fmt": "f32", "kind": "hang", "bits": [], "rest": 0}));
+                    continue;
+                },
+            };
             outs.push(match r64 {
                 Ok((_, usize::MAX)) => json!({"copy": name, "specials": specials, "fmt": "f64", "kind": "unextractable", "bits": [], "rest": 0}),
                 Ok((b, rest)) => json!({"copy": name, "specials": specials, "fmt": "f64", "kind": "value", "bits": limbs(b as u128), "rest": rest}),
                 Err(_) => json!({"copy": name, "specials": specials, "fmt": "f64", "kind": "panic", "bits": [], "rest": 0}),
             });
-            let r32 = catch_unwind(AssertUnwindSafe(|| e32(&bytes)));
             outs.push(match r32 {
                 Ok((_, usize::MAX)) => json!({"copy": name, "specials": specials, "fmt": "f32", "kind": "unextractable", "bits": [], "rest": 0}),
                 Ok((b, rest)) => json!({"copy": name, "specials": specials, "fmt": "f32", "kind": "value", "bits": limbs(b as u128), "rest": rest}),
